@@ -489,6 +489,9 @@ type cliVerdict struct {
 // scripted server gave up waiting for answers (watchdog): missing answers are then not judged.
 func judgeClientSide(r *vh.Run, scen string, stdio bool, frames []string, want *cliWant, issued int, complete bool) cliVerdict {
 	var v cliVerdict
+	for _, f := range frames {
+		r.Count("cli_frame_size|"+scen+"|"+cliSizeClass(len(f)+1), 1)
+	}
 	gotReq := map[string]int{}
 	gotAns := map[string]int{}
 	gotInit, gotInitialized, gotRootsChanged := 0, 0, 0
@@ -827,7 +830,48 @@ func senderPools(rng *rand.Rand, big bool) (small, all []hpay) {
 			all = append(all, p)
 		}
 	}
+	// sizes that put the request frame on both sides of (and now and then exactly on) 512, 4096, 8192, 65536 and
+	// 1 MiB: the frame is the payload plus 100-300 bytes of envelope, so the payload is the threshold minus a
+	// seeded 0-400 bytes (counted as observed: cli_frame_size|* in judgeClientSide)
+	for _, t := range []int{512, 4096, 8192, 65536, 1 << 20} {
+		for k := 0; k < 3; k++ {
+			n := t - rng.Intn(401)
+			b := make([]byte, n)
+			for i := range b {
+				b[i] = byte('a' + rng.Intn(26))
+			}
+			hp := hpay{Class: fmt.Sprintf("near-%d", t), Fam: "frame", S: string(b)}
+			if n <= 4300 {
+				small = append(small, hp)
+			}
+			if big || n <= 4300 {
+				all = append(all, hp)
+			}
+		}
+	}
 	return small, all
+}
+
+// cliSizeClass names the size class of a client frame relative to the usual buffer thresholds.
+func cliSizeClass(n int) string {
+	for _, t := range []int{512, 4096, 8192, 65536, 1 << 20} {
+		if n >= t-1 && n <= t+1 {
+			return fmt.Sprintf("at-%d(+-1)", t)
+		}
+	}
+	switch {
+	case n < 512:
+		return "<512"
+	case n < 4096:
+		return "<4096"
+	case n < 8192:
+		return "<8192"
+	case n < 65536:
+		return "<65536"
+	case n < 1<<20:
+		return "<1MiB"
+	}
+	return ">=1MiB"
 }
 
 // runSenders: conc application goroutines, each a seeded sequence of iters operations. Every request carries a
